@@ -31,6 +31,11 @@ VARIABLES img, mem
 
 Bit(v, k) == (v \div (2 ^ k)) % 2
 
+(* TLC: evaluate P as a Boolean value.  Inside an action TLC's successor enumeration otherwise   *)
+(* descends into P and treats every disjunction under a universal quantifier as a separate way  *)
+(* of taking the step (exponentially many identical successors).                                *)
+AsValue(P) == IF P THEN TRUE ELSE FALSE
+
 (* a 32-bit word is logged as <<hi16, lo16>> (TLC integers are 32-bit signed) *)
 W32Bit(v, k) == IF k < 16 THEN Bit(v[2], k) ELSE Bit(v[1], k - 16)
 
@@ -154,7 +159,7 @@ BltResult(dst, src, gd, gs, sx, sy, dx, dy, w, h) ==
 (* pixman_fill: TRUE and exactly the rectangle holds the low bpp bits of v, or FALSE and nothing changed. *)
 (* Precondition (the caller's): w, h >= 0, the rows of the rectangle lie inside the buffer and do not overlap. *)
 FillPre(g, x, y, w, h) ==
-    LET s == RectSpans(g, x, y, w, h) IN w >= 0 /\ h >= 0 /\ SpansInside(s, mem.dst) /\ SpansDisjoint(s)
+    LET s == RectSpans(g, x, y, w, h) IN AsValue(w >= 0 /\ h >= 0 /\ SpansInside(s, mem.dst) /\ SpansDisjoint(s))
 
 Fill(g, x, y, w, h, v, ret) ==
     /\ FillPre(g, x, y, w, h)
@@ -164,9 +169,9 @@ Fill(g, x, y, w, h, v, ret) ==
 (* pixman_blt: TRUE (only possible when both depths agree) and exactly the rectangle is copied, or FALSE. *)
 (* Source and destination are different buffers.                                                         *)
 Blt(gs, gd, sx, sy, dx, dy, w, h, ret) ==
-    /\ w >= 0 /\ h >= 0
-    /\ SpansInside(RectSpans(gd, dx, dy, w, h), mem.dst) /\ SpansDisjoint(RectSpans(gd, dx, dy, w, h))
-    /\ ret => (gs.bpp = gd.bpp /\ SpansInside(RectSpans(gs, sx, sy, w, h), mem.src))
+    /\ AsValue(w >= 0 /\ h >= 0 /\ SpansInside(RectSpans(gd, dx, dy, w, h), mem.dst)
+                /\ SpansDisjoint(RectSpans(gd, dx, dy, w, h)))
+    /\ AsValue(ret => (gs.bpp = gd.bpp /\ SpansInside(RectSpans(gs, sx, sy, w, h), mem.src)))
     /\ mem' = [mem EXCEPT !.dst = IF ret THEN BltResult(@, mem.src, gd, gs, sx, sy, dx, dy, w, h) ELSE @]
     /\ UNCHANGED <<img, reg>>
 
@@ -266,9 +271,9 @@ DstGeom == img.dst.g
 AlphaGeom == img.dst.am[1].g
 
 DrawsWithin(R) ==
-    /\ FrameOK(mem.dst, mem'.dst, DstGeom, R)
+    /\ AsValue(FrameOK(mem.dst, mem'.dst, DstGeom, R))
     /\ IF img.dst.am = <<>> THEN mem'.alpha = mem.alpha
-       ELSE FrameOK(mem.alpha, mem'.alpha, AlphaGeom, Shift(R, -img.dst.am[1].ox, -img.dst.am[1].oy))
+       ELSE AsValue(FrameOK(mem.alpha, mem'.alpha, AlphaGeom, Shift(R, -img.dst.am[1].ox, -img.dst.am[1].oy)))
     /\ mem'.src = mem.src
     /\ UNCHANGED <<img, reg>>
 
@@ -289,10 +294,11 @@ FillBoxes(op, col, boxes, ref) ==
         zero == [r |-> 0, g |-> 0, b |-> 0, a |-> 0]
     IN
     /\ DrawsWithin(R)
-    /\ FrameOK(mem.dst, ref, DstGeom, R)
-    /\ SamePicture(mem'.dst, ref, DstGeom, f, R)
-    /\ (img.dst.fmt \in DirectFillFormats /\ op = "CLEAR") => HoldsColour(mem'.dst, DstGeom, f, R, zero)
-    /\ (img.dst.fmt \in DirectFillFormats /\ op \in {"SRC", "OVER"} /\ opaque) => HoldsColour(mem'.dst, DstGeom, f, R, col)
+    /\ AsValue(FrameOK(mem.dst, ref, DstGeom, R))
+    /\ AsValue(SamePicture(mem'.dst, ref, DstGeom, f, R))
+    /\ AsValue((img.dst.fmt \in DirectFillFormats /\ op = "CLEAR") => HoldsColour(mem'.dst, DstGeom, f, R, zero))
+    /\ AsValue((img.dst.fmt \in DirectFillFormats /\ op \in {"SRC", "OVER"} /\ opaque)
+                   => HoldsColour(mem'.dst, DstGeom, f, R, col))
 
 (* (re)configuration of the images: anything *)
 Setup(newimg, newreg, newmem) == img' = newimg /\ reg' = newreg /\ mem' = newmem
